@@ -1,7 +1,7 @@
 SPECIFICATION Spec
 CONSTANTS
  TypeDefs <- MCTypeDefs
- Mols <- MCMols
+ Mols <- MCMolsQuick
  Fudges <- MCFudges
  Angles <- MCAngles
  DevImproper = FALSE
@@ -19,5 +19,6 @@ INVARIANT Untouched
 INVARIANT Protocol
 INVARIANT RotationLawsOnce
 INVARIANT TemplatesOKOnce
+INVARIANT BruteOnce
 PROPERTY OwnOnly
 CHECK_DEADLOCK FALSE
